@@ -22,11 +22,6 @@ open QV QV.Store QV.PhaseAux
 
 /-! ### specification vocabulary -/
 
-/-- names of `self.networks` per state type -/
-def netNames : Kind → List String
-  | .pos => ["rbm_am"]
-  | _ => ["rbm_am", "rbm_ph"]
-
 /-- what a freshly initialised RBM must look like: weights `w₀` (`w₁`) from the generator, ALL biases
 the zero token, shapes `H×n, [A×n,] n, H[, A]` -/
 def freshParams (k : NetKind) (n H A : Nat) (w : List Tok) : SD :=
